@@ -9,6 +9,8 @@ package c04
 //	ops3:  <= 3 call levels, <= B ops per body and <= G per tree over a small alphabet
 //	fee3:  <= 3 call levels, native setting changes (Policy.setFeePerByte: native cache + storage)
 //	reg*:  native registries: Policy block list (cached sorted list), contract deployment (registry cache, Deploy event)
+//	tok*:  the callee is reached through method tokens (CALLT) of the conduit contract W (wtoken_test.go)
+//	neo3:  NEO transfers (with payment callback) inside a callee that fails
 func spaces(thorough bool) []*space {
 	qk := [3][]string{1: {"Bf", "Bd", "$gB"}, 2: {"Cf", "$gC"}}
 	if !thorough {
@@ -21,6 +23,11 @@ func spaces(thorough bool) []*space {
 			{Name: "fee2b", Levels: 2, NT: "EF", TM: "!", B: 2, G: 2, F: 1, Kinds: [3][]string{1: {"Bf"}}, Block: true},
 			{Name: "reg2", Levels: 2, NT: "KUY", TM: "!#", B: 2, G: 3, F: 1, Kinds: [3][]string{1: {"Bf"}}},
 			{Name: "reg2b", Levels: 2, NT: "KUY", TM: "!", B: 2, G: 2, F: 1, Kinds: [3][]string{1: {"Bf"}}, Block: true},
+			// calls that reach the callee through method tokens (CALLT) of the conduit W: no handler / W catches / try-finally in W
+			{Name: "tok3", Levels: 3, TM: "!#", F: 1, FreeLit: true, Full: true, Kinds: [3][]string{1: {"WcB", "WtB", "WfB"}, 2: {"WcC", "WtC", "WfC", "Cf"}}},
+			{Name: "tok2b", Levels: 2, TM: "!#", F: 1, FreeLit: true, Full: true, Kinds: [3][]string{1: {"WcB", "WtB", "WfB"}}, Block: true},
+			// NEO moved by the sender inside a callee that fails (NEO account state, GAS bonus minting, total supply)
+			{Name: "neo3", Levels: 3, NT: "E", TM: "!", B: 1, G: 1, F: 1, Kinds: [3][]string{1: {"Bf"}, 2: {"$nC", "$sC"}}, Block: true},
 		}
 	}
 	tk := [3][]string{1: {"Bf", "Bd", "B7", "B5", "Af", "$gB", "$sB", "$nB"}, 2: {"Cf", "Cd", "Af", "Bf", "$gC", "$gA"}}
@@ -33,5 +40,7 @@ func spaces(thorough bool) []*space {
 		{Name: "reg3", Levels: 3, NT: "KUY", TM: "!#", B: 2, G: 2, F: 1, Kinds: [3][]string{1: {"Bf", "$gB"}, 2: {"Cf"}}},
 		{Name: "reg2", Levels: 2, NT: "KUYF", TM: "!#", B: 2, G: 3, F: 1, Kinds: [3][]string{1: {"Bf"}}},
 		{Name: "reg2b", Levels: 2, NT: "KUY", TM: "!", B: 2, G: 2, F: 1, Kinds: [3][]string{1: {"Bf"}}, Block: true},
+		{Name: "tok3", Levels: 3, TM: "!#", F: 2, Full: true, Kinds: [3][]string{1: {"WcB", "WtB", "WfB", "Bf"}, 2: {"WcC", "WtC", "WfC", "Cf"}}, Block: true},
+		{Name: "neo3", Levels: 3, NT: "EX", TM: "!#", B: 2, G: 3, F: 1, Kinds: [3][]string{1: {"Bf", "WtB"}, 2: {"$nC", "$sC", "$nA"}}, Block: true},
 	}
 }
